@@ -14,6 +14,9 @@ Proof. revert m; induction n; destruct m; cbn; auto. now rewrite IHn. Qed.
 Lemma skipn_repeat {A} (x : A) n m : skipn n (repeat x m) = repeat x (m - n).
 Proof. revert m; induction n; destruct m; cbn; auto. Qed.
 
+Lemma In_firstn_early {A} (x : A) n l : In x (firstn n l) -> In x l.
+Proof. revert l; induction n; intros [|y l] H; cbn in *; try contradiction. destruct H; auto. Qed.
+
 Lemma pad_length w s : length (pad w s) = Nat.max w (length s).
 Proof. unfold pad. rewrite app_length, repeat_length. lia. Qed.
 Lemma blank_pad w : blank w = pad w [].
@@ -47,11 +50,56 @@ Qed.
 Lemma clear0 w r : clear_from w 0 r = pad w [].
 Proof. unfold clear_from, pad. cbn. now rewrite Nat.sub_0_r. Qed.
 
-Lemma item_text_trunc maxw s : item_text maxw s = trunc maxw s.
+Lemma prompt_item_trunc maxw s : prompt_item_text maxw s = trunc maxw s.
 Proof.
-  unfold item_text, trunc, ell. rewrite repeat_length.
+  unfold prompt_item_text, trunc, ell. rewrite repeat_length.
   destruct (Nat.ltb_spec maxw (length s)), (Nat.leb_spec (length s) maxw); try lia; auto.
   now rewrite (Nat.min_comm 2).
+Qed.
+Lemma item_text_show ts maxw s : item_text ts maxw s = show ts maxw s.
+Proof.
+  unfold item_text, show, ell. rewrite repeat_length.
+  destruct (Nat.ltb_spec maxw (length (expand ts s))), (Nat.leb_spec (length (expand ts s)) maxw); try lia; auto.
+  now rewrite (Nat.min_comm 2).
+Qed.
+Lemma expand_take_length ts limit s : forall col, col <= limit ->
+  length (expand_from ts col (take_from ts col limit s)) + col <= limit.
+Proof.
+  induction s as [|x r IH]; intros col Hc; cbn [take_from expand_from length]; [lia|].
+  destruct (x =? TAB)%Z eqn:Ex.
+  - destruct (Nat.leb_spec (col + tab_width ts col) limit); cbn [expand_from length]; [|lia].
+    rewrite Ex, app_length, repeat_length. specialize (IH (col + tab_width ts col) H). lia.
+  - destruct (Nat.leb_spec (col + 1) limit); cbn [expand_from length]; [|lia].
+    rewrite Ex. cbn [length]. specialize (IH (col + 1) H). replace (S col) with (col + 1) by lia. lia.
+Qed.
+Lemma show_length ts maxw s : length (show ts maxw s) <= maxw.
+Proof.
+  unfold show, ell. destruct (Nat.leb_spec (length (expand ts s)) maxw); [lia|].
+  rewrite app_length, !repeat_length. unfold expand, take_width.
+  pose proof (expand_take_length ts (maxw - Nat.min 2 (maxw / 2)) s 0 ltac:(lia)).
+  assert (maxw / 2 <= maxw) by (apply Nat.div_le_upper_bound; lia). lia.
+Qed.
+(* a text without tabs is shown as before *)
+Lemma expand_notab ts s : Forall (fun x => x <> TAB) s -> forall col, expand_from ts col s = s.
+Proof.
+  induction 1 as [|x r Hx Hr IH]; intros col; cbn [expand_from]; [reflexivity|].
+  apply Z.eqb_neq in Hx. rewrite Hx. now rewrite IH.
+Qed.
+Lemma take_notab ts limit s : Forall (fun x => x <> TAB) s -> forall col, take_from ts col limit s = firstn (limit - col) s.
+Proof.
+  induction 1 as [|x r Hx Hr IH]; intros col; cbn [take_from]; [now rewrite firstn_nil|].
+  apply Z.eqb_neq in Hx. rewrite Hx.
+  destruct (Nat.leb_spec (col + 1) limit).
+  - rewrite IH. replace (limit - col) with (S (limit - (col + 1))) by lia. reflexivity.
+  - replace (limit - col) with 0 by lia. reflexivity.
+Qed.
+Lemma show_notab ts maxw s : Forall (fun x => x <> TAB) s -> show ts maxw s = trunc maxw s.
+Proof.
+  intros H. unfold show, trunc, expand, take_width. rewrite (expand_notab ts s H 0).
+  destruct (length s <=? maxw); [reflexivity|].
+  rewrite (take_notab ts _ s H 0), Nat.sub_0_r.
+  rewrite expand_notab; [reflexivity|]. apply Forall_forall. intros x Hin. rewrite Forall_forall in H.
+  apply H. eapply In_firstn_early, Hin.
 Qed.
 Lemma trunc_length maxw s : length (trunc maxw s) <= maxw.
 Proof.
@@ -80,12 +128,13 @@ Proof. revert l; induction n; intros [|x l]; cbn; auto. now destruct k. Qed.
 
 (* ---------- the list area: one prevLines entry and its row ---------- *)
 Definition lm (cur sel : bool) : str := [if cur then GT else SP; if sel then GT else SP].
-Definition item_row (w : nat) (cur sel : bool) (txt : str) : row := pad w (lm cur sel ++ trunc (w - 3) txt).
+Definition item_row (w ts : nat) (cur sel : bool) (txt : str) : row := pad w (lm cur sel ++ show ts (w - 3) txt).
 
 Section ListArea.
   Variable txt_of : nat -> str.     (* the text of an item is determined by its index *)
   Variable W : nat.
   Hypothesis HW : 3 <= W.
+  Variable TS : nat.
 
   Definition pair_ok (pr : iline * row) : Prop :=
     let '(p, r) := pr in
@@ -93,19 +142,19 @@ Section ListArea.
     (il_valid p = false -> il_empty p = false) /\
     (il_valid p = true ->
        (il_empty p = true /\ il_idx p = None /\ il_width p = 0 /\ r = blank W) \/
-       (il_empty p = false /\ exists i, il_idx p = Some i /\ il_width p = length (trunc (W - 3) (txt_of i)) /\
-                                        r = item_row W (il_cur p) (il_sel p) (txt_of i))).
+       (il_empty p = false /\ exists i, il_idx p = Some i /\ il_width p = length (show TS (W - 3) (txt_of i)) /\
+                                        r = item_row W TS (il_cur p) (il_sel p) (txt_of i))).
 
-  Lemma item_row_length cur sel t : length (item_row W cur sel t) = W.
+  Lemma item_row_length cur sel t : length (item_row W TS cur sel t) = W.
   Proof.
     unfold item_row. rewrite pad_length, app_length. cbn [lm length].
-    pose proof (trunc_length (W - 3) t). lia.
+    pose proof (show_length TS (W - 3) t). lia.
   Qed.
 
   Lemma print_item_ok cy qlen sel pos m pr :
     pair_ok pr -> snd m = txt_of (fst m) ->
-    pair_ok (print_item W cy qlen sel pos m pr) /\
-    snd (print_item W cy qlen sel pos m pr) = item_row W (Nat.eqb pos cy) (memb (fst m) sel) (snd m).
+    pair_ok (print_item W TS cy qlen sel pos m pr) /\
+    snd (print_item W TS cy qlen sel pos m pr) = item_row W TS (Nat.eqb pos cy) (memb (fst m) sel) (snd m).
   Proof.
     destruct pr as [p r]. intros (Hlen & Hinv & Hval) Hm. unfold print_item.
     set (cur := Nat.eqb pos cy). set (sl := memb (fst m) sel).
@@ -121,21 +170,21 @@ Section ListArea.
       split.
       + cbn. repeat split; auto. intros _. right. split; auto. exists (fst m). auto.
       + cbn [snd]. rewrite Hr, H2, H1, Hm. reflexivity.
-    - clear Hskip. rewrite item_text_trunc.
+    - clear Hskip. rewrite item_text_show.
       assert (H1 : (1 <=? W) = true) by (apply Nat.leb_le; lia).
       assert (H2 : (2 <=? W) = true) by (apply Nat.leb_le; lia).
       rewrite H1, H2. cbn [app].
       change [if cur then GT else SP; if sl then GT else SP] with (lm cur sl).
-      set (txt := trunc (W - 3) (snd m)).
-      pose proof (trunc_length (W - 3) (snd m)) as Htl. fold txt in Htl.
+      set (txt := show TS (W - 3) (snd m)).
+      pose proof (show_length TS (W - 3) (snd m)) as Htl. fold txt in Htl.
       assert (Hgoal : (if negb (il_valid p) || (length txt =? 0)
                        then clear_from W (W - 1)
                               (put 0 (lm cur sl ++ txt ++ repeat SP ((if negb (il_valid p) then W - 3 else il_width p) - length txt)) r)
                        else put 0 (lm cur sl ++ txt ++ repeat SP ((if negb (il_valid p) then W - 3 else il_width p) - length txt)) r)
-                      = item_row W cur sl (snd m)).
+                      = item_row W TS cur sl (snd m)).
       { destruct (il_valid p) eqn:Hv; cbn [negb orb].
         - (* redraw over the previous contents, clearing only as far as they reached *)
-          assert (Hput : put 0 (lm cur sl ++ txt ++ repeat SP (il_width p - length txt)) r = item_row W cur sl (snd m)).
+          assert (Hput : put 0 (lm cur sl ++ txt ++ repeat SP (il_width p - length txt)) r = item_row W TS cur sl (snd m)).
           { destruct (Hval eq_refl) as [(He & Hn & Hw0 & Hr)|(He & i & Hi & Hw & Hr)].
             - rewrite Hr, (blank_pad W), put0_pad by (cbn; lia).
               rewrite Hw0. cbn [Nat.sub repeat]. rewrite app_nil_r. reflexivity.
@@ -143,7 +192,7 @@ Section ListArea.
               2:{ rewrite !app_length, repeat_length. cbn [lm length]. lia. }
               rewrite app_assoc, pad_spaces. reflexivity.
               rewrite app_length. cbn [lm length].
-              pose proof (trunc_length (W - 3) (txt_of i)). lia. }
+              pose proof (show_length TS (W - 3) (txt_of i)). lia. }
           rewrite Hput. destruct (length txt =? 0); auto.
           unfold item_row. apply clear_last_pad; [|lia]. rewrite app_length. cbn [lm length]. fold txt. lia.
         - (* forced redraw: the whole row is rewritten *)
@@ -163,15 +212,15 @@ Section ListArea.
 
   Definition slot (cy : nat) (sel : list nat) (pos : nat) (ms : list (nat * str)) (k : nat) : row :=
     match nth_error ms k with
-    | Some m => item_row W (Nat.eqb (pos + k) cy) (memb (fst m) sel) (snd m)
+    | Some m => item_row W TS (Nat.eqb (pos + k) cy) (memb (fst m) sel) (snd m)
     | None => blank W
     end.
 
   Lemma draw_rows_ok cy qlen sel prs : forall pos ms,
     Forall pair_ok prs -> Forall (fun m => snd m = txt_of (fst m)) ms ->
-    Forall pair_ok (draw_rows W cy qlen sel pos ms prs) /\
-    length (draw_rows W cy qlen sel pos ms prs) = length prs /\
-    map snd (draw_rows W cy qlen sel pos ms prs) = map (slot cy sel pos ms) (seq 0 (length prs)).
+    Forall pair_ok (draw_rows W TS cy qlen sel pos ms prs) /\
+    length (draw_rows W TS cy qlen sel pos ms prs) = length prs /\
+    map snd (draw_rows W TS cy qlen sel pos ms prs) = map (slot cy sel pos ms) (seq 0 (length prs)).
   Proof.
     induction prs as [|pr prs IH]; intros pos ms Hp Hm; [cbn; auto|].
     inversion Hp as [|? ? Hpr Hprs]; subst. cbn [draw_rows].
@@ -277,12 +326,12 @@ Proof.
   - now destruct y.
   - destruct s; [lia|]. destruct y; cbn; auto. apply IH. lia.
 Qed.
-Lemma header_from_keeps w hs : forall line scr s, line + length hs <= s ->
-  length (print_header_from w line hs scr) = length scr /\
-  skipn s (print_header_from w line hs scr) = skipn s scr.
+Lemma header_from_keeps w ts hs : forall line scr s, line + length hs <= s ->
+  length (print_header_from w ts line hs scr) = length scr /\
+  skipn s (print_header_from w ts line hs scr) = skipn s scr.
 Proof.
   induction hs as [|h hs IH]; intros line scr s H; cbn [print_header_from]; [auto|].
-  cbn [length] in H. destruct (IH (S line) (upd_at line (fun row => put 0 ([SP; SP] ++ item_text (w - 3) h) (clear_from w 0 row)) scr) s ltac:(lia)) as [E1 E2].
+  cbn [length] in H. destruct (IH (S line) (upd_at line (fun row => put 0 ([SP; SP] ++ item_text ts (w - 3) h) (clear_from w 0 row)) scr) s ltac:(lia)) as [E1 E2].
   rewrite E1, E2, upd_at_length, upd_at_skipn by lia. auto.
 Qed.
 
@@ -298,18 +347,19 @@ Section Term.
   Variable c : cfg.
   Hypothesis Hc : cfg_ok c.
   Let W := c_w c.
+  Let TS := c_tabstop c.
   Let H := c_h c.
   Let st := list_start c.
   Let n := max_items c.
 
   Definition tinv (t : term) : Prop :=
-    length (t_screen t) = H /\ length (t_prev t) = H /\ Forall (pair_ok txt_of W) (seg_pairs c t).
+    length (t_screen t) = H /\ length (t_prev t) = H /\ Forall (pair_ok txt_of W TS) (seg_pairs c t).
 
   Lemma st_n : st + n = H /\ 3 <= W.
   Proof. destruct Hc as [H4 Hh]. unfold st, n, H, W, list_start, max_items in *. lia. Qed.
 
   Lemma slot_is_spec (t : term) k :
-    slot W (t_cy t) (t_sel t) (t_off t) (skipn (t_off t) (t_matches t)) k = list_slot_text c (t_view t) k.
+    slot W TS (t_cy t) (t_sel t) (t_off t) (skipn (t_off t) (t_matches t)) k = list_slot_text c (t_view t) k.
   Proof. unfold slot, list_slot_text. cbn [t_view v_matches v_off v_cy v_sel]. rewrite nth_error_skipn. reflexivity. Qed.
 
   Lemma print_list_at_ok t : tinv t -> coherent txt_of (t_matches t) ->
@@ -317,13 +367,13 @@ Section Term.
     firstn st (t_screen (print_list_at c t)) = firstn st (t_screen t).
   Proof.
     intros (Hs & Hp & Hf) Hm. destruct st_n as [Hsn HW].
-    unfold print_list_at. fold st n W.
+    unfold print_list_at. fold st n W TS.
     set (seg := combine (firstn n (skipn st (t_prev t))) (firstn n (skipn st (t_screen t)))).
     assert (Hco : coherent txt_of (skipn (t_off t) (t_matches t))).
     { unfold coherent in *. rewrite Forall_forall in *. intros m Hin. apply Hm.
       rewrite <- (firstn_skipn (t_off t)). apply in_or_app. now right. }
-    destruct (draw_rows_ok txt_of W HW (t_cy t) (length (t_query t)) (t_sel t) seg (t_off t) _ Hf Hco) as (D1 & D2 & D3).
-    set (seg' := draw_rows W (t_cy t) (length (t_query t)) (t_sel t) (t_off t) (skipn (t_off t) (t_matches t)) seg) in *.
+    destruct (draw_rows_ok txt_of W HW TS (t_cy t) (length (t_query t)) (t_sel t) seg (t_off t) _ Hf Hco) as (D1 & D2 & D3).
+    set (seg' := draw_rows W TS (t_cy t) (length (t_query t)) (t_sel t) (t_off t) (skipn (t_off t) (t_matches t)) seg) in *.
     assert (Hseg : length seg = n).
     { unfold seg. rewrite combine_length, !firstn_length, !skipn_length. lia. }
     assert (L1 : length (firstn st (t_screen t)) = st) by (rewrite firstn_length; lia).
@@ -377,7 +427,7 @@ Section Term.
     intros Ht. unfold print_header.
     assert (Hlen : prompt_lines c + length (hdr_logical c) <= st).
     { unfold st, list_start, nheader, hdr_logical. rewrite app_length. destruct (c_layout c); rewrite ?rev_length; lia. }
-    destruct (header_from_keeps (c_w c) (hdr_logical c) (prompt_lines c) (t_screen t) st Hlen) as [E1 E2].
+    destruct (header_from_keeps (c_w c) (c_tabstop c) (hdr_logical c) (prompt_lines c) (t_screen t) st Hlen) as [E1 E2].
     apply redraw_above_ok; auto.
   Qed.
 
@@ -570,7 +620,7 @@ Proof.
   destruct Hc as [H4 _].
   destruct (nth_error (v_matches v) (v_off v + i)); [|unfold blank; now rewrite repeat_length].
   unfold item_row_text. rewrite pad_length, app_length. cbn [length].
-  pose proof (trunc_length (c_w c - 3) (snd p)). lia.
+  pose proof (show_length (c_tabstop c) (c_w c - 3) (snd p)). lia.
 Qed.
 
 (* header_not_in_list: prompt, info, --header, --header-lines and list rows are distinct rows of the window *)
@@ -598,7 +648,7 @@ Proof. intros. split; [apply trunc_fits|]. split; [apply trunc_cut|apply trunc_l
    printInfoImpl does not clear the info row when a separator is configured and draws no separator when the
    text fills the row, so the tail of a longer previous text survives: 12 columns, "30/30 (0)" then "1/30 (0)"
    leaves "1/30 (0))". *)
-Definition refute_cfg : cfg := mkCfg 12 8 LDefault IDefault true [] [] MAX_MULTI.
+Definition refute_cfg : cfg := mkCfg 12 8 LDefault IDefault true [] [] MAX_MULTI 8.
 Definition refute_v0 : view := mkView [GT; SP] [] (map (fun i => (i, [97%Z])) (seq 0 30)) 30 0 0 [].
 Definition refute_us : list upd :=
   [mkUpd [GT; SP] [49%Z; 49%Z] [(10, [97%Z])] 30 0 [] (mkReqs true true false true false)].
@@ -644,14 +694,14 @@ Proof.
   destruct (c_sep c); cbn [length]; rewrite ?app_length, ?repeat_length; cbn [length]; lia.
 Qed.
 
-Lemma header_from_app w hs : forall pre olds post, length olds = length hs ->
-  print_header_from w (length pre) hs (pre ++ olds ++ post) =
-  pre ++ map (fun h => pad w ([SP; SP] ++ trunc (w - 3) h)) hs ++ post.
+Lemma header_from_app w ts hs : forall pre olds post, length olds = length hs ->
+  print_header_from w ts (length pre) hs (pre ++ olds ++ post) =
+  pre ++ map (fun h => pad w ([SP; SP] ++ show ts (w - 3) h)) hs ++ post.
 Proof.
   induction hs as [|h hs IH]; intros pre olds post Hl; destruct olds as [|o os]; try discriminate; [reflexivity|].
   cbn [print_header_from map app]. rewrite upd_at_app_len, clear0, put0_pad by (cbn; lia).
-  rewrite item_text_trunc.
-  set (X := pad w (SP :: SP :: trunc (w - 3) h)).
+  rewrite item_text_show.
+  set (X := pad w (SP :: SP :: show ts (w - 3) h)).
   replace (pre ++ X :: os ++ post) with ((pre ++ [X]) ++ os ++ post) by (rewrite <- app_assoc; reflexivity).
   replace (S (length pre)) with (length (pre ++ [X])) by (rewrite app_length; cbn; lia).
   rewrite IH by (cbn in Hl; lia). rewrite <- app_assoc. reflexivity.
@@ -665,9 +715,9 @@ Lemma hdr_logical_length c : length (hdr_logical c) = nheader c.
 Proof. unfold hdr_logical, nheader. rewrite app_length. destruct (c_layout c); now rewrite ?rev_length. Qed.
 
 Lemma prompt_clean w P q r : length P + 2 <= w ->
-  put 0 (item_text (w - 2) P ++ q) (clear_from w 0 r) = pad w (P ++ q).
+  put 0 (prompt_item_text (w - 2) P ++ q) (clear_from w 0 r) = pad w (P ++ q).
 Proof.
-  intros H. rewrite clear0, put0_pad by (cbn; lia). rewrite item_text_trunc, trunc_fits by lia. reflexivity.
+  intros H. rewrite clear0, put0_pad by (cbn; lia). rewrite prompt_item_trunc, trunc_fits by lia. reflexivity.
 Qed.
 
 (* the info printed on a freshly printed prompt line *)
@@ -742,12 +792,12 @@ Proof.
     by (rewrite repeat_length, hdr_logical_length; reflexivity).
   pose proof (inline_on_clean c (t_view t) Hv) as Hil. pose proof (inline_right_on_clean c (t_view t) Hv) as Hir.
   destruct Hv as [V1 V2]. cbn [t_view v_prompt] in V1.
-  assert (HA2 : forall a b post, print_header_from (c_w c) 2 (hdr_logical c) (a :: b :: repeat (blank (c_w c)) (nheader c) ++ post)
+  assert (HA2 : forall a b post, print_header_from (c_w c) (c_tabstop c) 2 (hdr_logical c) (a :: b :: repeat (blank (c_w c)) (nheader c) ++ post)
                  = a :: b :: map (header_row_text c) (hdr_logical c) ++ post)
-    by (intros a b post; exact (header_from_app (c_w c) (hdr_logical c) [a; b] _ post Hh2)).
-  assert (HA1 : forall a post, print_header_from (c_w c) 1 (hdr_logical c) (a :: repeat (blank (c_w c)) (nheader c) ++ post)
+    by (intros a b post; exact (header_from_app (c_w c) (c_tabstop c) (hdr_logical c) [a; b] _ post Hh2)).
+  assert (HA1 : forall a post, print_header_from (c_w c) (c_tabstop c) 1 (hdr_logical c) (a :: repeat (blank (c_w c)) (nheader c) ++ post)
                  = a :: map (header_row_text c) (hdr_logical c) ++ post)
-    by (intros a post; exact (header_from_app (c_w c) (hdr_logical c) [a] _ post Hh2)).
+    by (intros a post; exact (header_from_app (c_w c) (c_tabstop c) (hdr_logical c) [a] _ post Hh2)).
   unfold logical_rows, print_header, print_info, print_prompt.
   unfold t_view in *.
   cbn [set_draw t_screen t_prompt t_query t_matches t_total t_cy t_off t_sel v_prompt v_query] in *.
@@ -820,12 +870,12 @@ Qed.
 Lemma header_row_length c h : cfg_ok c -> length (header_row_text c h) = c_w c.
 Proof.
   intros [H4 _]. unfold header_row_text. apply pad_exact. cbn [app length].
-  pose proof (trunc_length (c_w c - 3) h). lia.
+  pose proof (show_length (c_tabstop c) (c_w c - 3) h). lia.
 Qed.
 Lemma list_slot_length c v i : cfg_ok c -> length (list_slot_text c v i) = c_w c.
 Proof.
   intros [H4 _]. unfold list_slot_text. destruct (nth_error (v_matches v) (v_off v + i)); [|unfold blank; now rewrite repeat_length].
-  unfold item_row_text. apply pad_exact. cbn [app length]. pose proof (trunc_length (c_w c - 3) (snd p)). lia.
+  unfold item_row_text. apply pad_exact. cbn [app length]. pose proof (show_length (c_tabstop c) (c_w c - 3) (snd p)). lia.
 Qed.
 
 (* width_bound: no row of the full render is wider (or narrower) than the window *)
@@ -947,7 +997,7 @@ Lemma nth_upd_at_eq {A} y (f : A -> A) l d : y < length l -> nth y (upd_at y f l
 Proof. revert y; induction l as [|x l IH]; intros [|y] H; cbn in *; try lia; auto. apply IH. lia. Qed.
 Lemma nth_upd_at_neq {A} y z (f : A -> A) l d : y <> z -> nth z (upd_at y f l) d = nth z l d.
 Proof. revert y z; induction l as [|x l IH]; intros [|y] [|z] H; cbn; auto; try lia. Qed.
-Lemma header_from_nth w hs : forall line scr z, z < line -> nth z (print_header_from w line hs scr) [] = nth z scr [].
+Lemma header_from_nth w ts hs : forall line scr z, z < line -> nth z (print_header_from w ts line hs scr) [] = nth z scr [].
 Proof.
   induction hs as [|h hs IH]; intros line scr z Hz; cbn [print_header_from]; [reflexivity|].
   rewrite IH by lia. apply nth_upd_at_neq. lia.
@@ -1016,7 +1066,7 @@ Proof. intros S. unfold info_row_text. now rewrite (same_top_info c v v' S). Qed
 
 (* what printPrompt / printInfo do to lines 0 and 1 *)
 Definition prompt_f (c : cfg) (v : view) (r : row) : row :=
-  put 0 (item_text (c_w c - 2) (v_prompt v) ++ v_query v) (clear_from (c_w c) 0 r).
+  put 0 (prompt_item_text (c_w c - 2) (v_prompt v) ++ v_query v) (clear_from (c_w c) 0 r).
 Definition info0 (c : cfg) (v : view) (r : row) : row :=
   let w := c_w c in let out := info_text c v in
   let pos := length (v_prompt v) + length (v_query v) + 1 in
@@ -1106,7 +1156,7 @@ Section Above.
     unfold above_ok, line0, line1, hdr_seg, print_header in *. cbn [set_draw t_screen].
     assert (Hlen : prompt_lines c + length (hdr_logical c) <= list_start c)
       by (rewrite hdr_logical_length; unfold list_start; lia).
-    destruct (header_from_keeps (c_w c) (hdr_logical c) (prompt_lines c) (t_screen t) (list_start c) Hlen) as [E1 E2].
+    destruct (header_from_keeps (c_w c) (c_tabstop c) (hdr_logical c) (prompt_lines c) (t_screen t) (list_start c) Hlen) as [E1 E2].
     split; [rewrite E1; exact Hl|]. split; [rewrite header_from_nth by lia; exact H0|].
     split; [intros E; rewrite header_from_nth by lia; auto|].
     rewrite (screen_pieces c (t_screen t) Hc Hl).
@@ -1533,3 +1583,13 @@ Section Whole.
     rewrite (paint_screen_term txt_of c _ Hc Vf Cf). exact Ff.
   Qed.
 End Whole.
+
+(* show: what a row shows of a text that may contain tabs *)
+Theorem show_shape_proof : forall ts maxw s,
+  length (show ts maxw s) <= maxw /\
+  (length (expand ts s) <= maxw -> show ts maxw s = expand ts s) /\
+  (Forall (fun x => x <> TAB) s -> show ts maxw s = trunc maxw s).
+Proof.
+  intros. split; [apply show_length|]. split; [|apply show_notab].
+  intros H. unfold show. now apply Nat.leb_le in H as ->.
+Qed.
